@@ -28,6 +28,16 @@ CHECKS = {
    text="Exploration. rank, determinant, null_space, null_space_matrix, solve and inverse of VecMatrix<i64>, VecMatrix<BigRational>, VecMatrix<Z/p> (p in {2, 3, 61, 9999991, 3037000493}) and of the const-generic Matrix twin (14 shapes, reached through the cfg-gated verif_* wrappers) are compared with an independent elimination over the matching field: exact rank, exact determinant value, null space of exactly cols-rank independent annihilated columns, solve sound always and complete over fields (and for unimodular integer matrices), inverse exact or None iff singular, no panic for any shape 1x1..6x6. Matrices: all 1x2..3x2 with entries in -2..2 (exhaustive, every backend), and proptest-generated ones (three magnitude bands up to 1e9, planted dependencies, unimodular products, entries congruent to small numbers modulo the prime incl. exact negative multiples) with consistent and random right-hand sides. Residue classes: all n in [-3P,3P] for small P and random i64 incl. negative multiples for all P, every operator form against i128 arithmetic. The p-adic solver is compared with the exact rational solution on square systems up to 6x6; the periodic-graph client is checked by substituting its positions into the barycentric equations.",
    note="Trusted: the harness's field elimination (Q via BigRational, Z/p via i128) and Bareiss determinant. i64 overflow panics are discards (the harness builds /repo with overflow checks on, as the repository's own debug-profile tests do). f64 is out of scope. Hook: verif_* wrappers on Matrix (cfg odf_rust_dsymbols_verif).",
    design="§4 C18"),
+ "C01": dict(
+   technique="property-based testing: exhaustive small symbols + proptest-generated symbols and strings (valid texts, token mutations, grammar-derived specs, soups), round-trip and validity oracles on an independent table model; worker process journals each string so aborts are caught",
+   text="Exploration. Round trip: every branching assignment (v <= 3) on every D-set of the harness's brute-force enumeration up to a size bound, plus proptest-generated renumbered symbols with large branching numbers and random symbols with up to 300 chambers (multi-digit tokens), printed from PartialDSym and SimpleDSym with arbitrary counters; parse(print(x)) must equal x in dim, size, operations and branching, print(parse(..)) must parse to the same symbol again, and the harness's own reader must read the printed text as x. Totality: valid texts with random whitespace, 1-3 token-level mutations of valid texts (incl. symbols with multi-digit chambers), random specs in the grammar with out-of-range and 64-bit-boundary numbers, real operation lists with arbitrary degree lists, token soups and arbitrary unicode; from_str must return (panics are caught, aborts are caught by the parent through the case journal), and an Ok result must consist of involutions on 1..size with degrees that are multiples of the orbit lengths (own walk), must denote exactly the lists written in the text, and must survive print/parse.",
+   note="Trusted: the harness table model and its tokenizer. Equality ignores the <set.sym: counters. Err is always an acceptable answer for texts the harness did not construct to be valid. An Ok result may carry undefined degrees written as 0.",
+   design="§4 C01"),
+ "C06": dict(
+   technique="differential testing against an independent brute-force enumeration (all tuples of involutions, own canonical form), exhaustive up to a size bound; proptest-generated random D-sets for membership beyond it",
+   text="Exploration. For every (dimension, max_size) with dim 1 <= 11 (13 thorough), dim 2 <= 9 (11), dim 3 <= 7 (9) the generator's output is validated item by item (complete, involutions, connected, non-adjacent operations commute, numbered 1,2,3,...) and compared per size as a set of isomorphism classes with the harness's own enumeration of all tuples of involutions (operation 0 fixed up to conjugacy, canonical form = minimum BFS code over all start chambers): sound, irredundant and complete below the bound. Beyond the bound (dim 2 up to 13/14 chambers, dim 3 up to 10/11, dim 1 up to 18/22) the output must be pairwise non-isomorphic and consistent between consecutive bounds, and proptest-generated random connected commuting D-sets (built from random involutions and centraliser elements, randomly renumbered) must occur in it.",
+   note="Trusted: the brute-force enumerator and BFS canonical code of the harness (its class counts 1,7,3,22,13,70,67,... are cross-checked by the comparison itself).",
+   design="§4 C06"),
 }
 
 NOT_YET = "check not built yet in this session (work in progress; see DESIGN.md §4 for its design)"
